@@ -11,7 +11,8 @@ and what the value is.
 
 Vocabulary (`MeaningLemmas.lean`):
 * `XE env d e` — the transformer turns datum `d` into expression `e` (leaving `env` unchanged).
-  Body forms of the lambdas the templates build are transformed in a child scope, `[] :: env`.
+  (Body forms of the lambdas the templates build are transformed in a fresh child scope, which gives
+  the same expressions: `xe_child_iff`.)
 * `Means σ ρ e v τ` — the MODEL (`evalExpr`, some fuel) evaluates `e` in store `σ`, frame `ρ`, to the
   value `v`; `τ` is the final store with the activation counters erased (`Store.erase`: `depth` and
   `maxDepth` are instrumentation). It is functional (`Means.unique`) and, by `C01.model_iff_ref_value`,
@@ -37,8 +38,8 @@ open Ruschm Ruschm.Eval Ruschm.Xform Ruschm.Macro Ruschm.Meaning Ruschm.C05
 /-- `(begin form₁ … formₙ)`: the forms are evaluated in order, in a fresh empty frame that is a child of
 the current one, and the value is the value of the last. -/
 theorem begin_meaning {env l₁ rest l body e} (hstd : StdSyn env) (hu : IsList rest body) (hne : body ≠ [])
-    (hnd : NoDefs ([] :: env) body) (hx : XE env (.pair (.sym "begin" l₁) rest l) e) :
-    ∃ bes, All2 (XE ([] :: env)) body bes ∧
+    (hnd : NoDefs env body) (hx : XE env (.pair (.sym "begin" l₁) rest l) e) :
+    ∃ bes, All2 (XE env) body bes ∧
       ∀ σ ρ v τ, MeansSeq σ.frames.size (σ.pushFrame ρ []) bes v τ → Means σ ρ e v τ := by
   have h₁ := hx.expand_inv hstd.std (by decide) (fun fuel hf => at_loc (begin_shape (isList_withLoc l hu) hne hf))
   obtain ⟨F, bes, aes, la, lb, hF, hbes, haes, rfl⟩ :=
@@ -74,8 +75,8 @@ example : ∃ e, XE [[], Interp.grammarScope] (lst [sy "begin", num 1, num 2]) e
 evaluated in order (in a fresh empty child frame) and the value is the value of the last; if it is `#f`
 NO form is evaluated — the store is the one the test left — and the model's value is `Void`. -/
 theorem when_meaning {env l₁ rest l test body e} (hstd : StdSyn env) (hu : IsList rest (test :: body))
-    (hne : body ≠ []) (hnd : NoDefs ([] :: env) body) (hx : XE env (.pair (.sym "when" l₁) rest l) e) :
-    ∃ te bes, XE env test te ∧ All2 (XE ([] :: env)) body bes ∧
+    (hne : body ≠ []) (hnd : NoDefs env body) (hx : XE env (.pair (.sym "when" l₁) rest l) e) :
+    ∃ te bes, XE env test te ∧ All2 (XE env) body bes ∧
       ∀ σ ρ tv σ₁, Means σ ρ te tv σ₁ →
         (tv.truthy = true → ∀ v τ, MeansSeq σ₁.frames.size (σ₁.pushFrame ρ []) bes v τ → Means σ ρ e v τ) ∧
         (tv.truthy = false → Means σ ρ e .void σ₁) := by
@@ -92,8 +93,8 @@ theorem when_meaning {env l₁ rest l test body e} (hstd : StdSyn env) (hu : IsL
 value is `#f` the forms are evaluated in order and the value is the value of the last; otherwise NO form
 is evaluated and the model's value is `Void`. -/
 theorem unless_meaning {env l₁ rest l test body e} (hstd : StdSyn env) (hu : IsList rest (test :: body))
-    (hne : body ≠ []) (hnd : NoDefs ([] :: env) body) (hx : XE env (.pair (.sym "unless" l₁) rest l) e) :
-    ∃ te bes, XE env test te ∧ All2 (XE ([] :: env)) body bes ∧
+    (hne : body ≠ []) (hnd : NoDefs env body) (hx : XE env (.pair (.sym "unless" l₁) rest l) e) :
+    ∃ te bes, XE env test te ∧ All2 (XE env) body bes ∧
       ∀ σ ρ tv σ₁, σ.lookup ρ "not" = some (.builtin .not) → Means σ ρ te tv σ₁ →
         (tv.truthy = false → ∀ v τ, MeansSeq σ₁.frames.size (σ₁.pushFrame ρ []) bes v τ → Means σ ρ e v τ) ∧
         (tv.truthy = true → Means σ ρ e .void σ₁) := by
@@ -113,5 +114,403 @@ theorem unless_meaning {env l₁ rest l test body e} (hstd : StdSyn env) (hu : I
       · exact Means.cond_true (Means.not_call hnot ht) (by rw [htv]; rfl) (rule σ₁ ρ v τ hb)
       · exact Means.cond_void (Means.not_call hnot ht) (by rw [htv]; rfl)
   · cases hr
+
+/-! ## and -/
+
+/-- R7RS `and` on already transformed tests: left to right; the first `#f` is the value and ends the
+evaluation; otherwise the value of the last test; `(and)` is `#t` -/
+inductive AndMeans (ρ : Nat) : Store → List Expr → Value → Store → Prop
+  | nil {σ} : AndMeans ρ σ [] (.bool true) σ.erase
+  | one {σ t v τ} (h : Means σ ρ t v τ) : AndMeans ρ σ [t] v τ
+  | stop {σ t t' ts tv σ₁} (h : Means σ ρ t tv σ₁) (htv : tv.truthy = false) :
+      AndMeans ρ σ (t :: t' :: ts) (.bool false) σ₁
+  | next {σ t t' ts tv σ₁ v τ} (h : Means σ ρ t tv σ₁) (htv : tv.truthy = true)
+      (ht : AndMeans ρ σ₁ (t' :: ts) v τ) : AndMeans ρ σ (t :: t' :: ts) v τ
+
+/-- `(and test₁ … testₙ)`: the tests are evaluated left to right in the current frame until one yields
+`#f`, which is then the value (the later tests are NOT evaluated); if none does the value is the value
+of the last test; `(and)` is `#t`. -/
+theorem and_meaning {env} (hstd : StdSyn env) : ∀ (tests : List Datum) {l₁ rest l e}, IsList rest tests →
+    XE env (.pair (.sym "and" l₁) rest l) e →
+    ∃ tes, All2 (XE env) tests tes ∧ ∀ σ ρ v τ, AndMeans ρ σ tes v τ → Means σ ρ e v τ
+  | [], l₁, rest, l, e, hu, hx => by
+    have h₁ := hx.expand_inv hstd.std (by decide) (fun fuel hf => at_loc (and_empty_shape (isList_withLoc l hu) hf))
+    have := h₁.prim_inv; subst this
+    exact ⟨[], .nil, fun σ ρ v τ h => by cases h; exact Means.prim rfl⟩
+  | [t], l₁, rest, l, e, hu, hx => by
+    have h₁ := hx.expand_inv hstd.std (by decide) (fun fuel hf => at_loc (and_one_shape (isList_withLoc l hu) hf))
+    exact ⟨[e], .cons h₁ .nil, fun σ ρ v τ h => by cases h; assumption⟩
+  | t :: t' :: ts, l₁, rest, l, e, hu, hx => by
+    have h₁ := hx.expand_inv hstd.std (by decide) (fun fuel hf =>
+      at_loc (and_more_shape (test := t) (tests := t' :: ts) (isList_withLoc l hu) (by simp) hf))
+    obtain ⟨te, ce, lc, hte, hce, hcase⟩ := h₁.if_inv (isList_ofList _ _) rfl
+    rcases hcase with ⟨hr, _⟩ | ⟨a, r', ae, hr, hae, rfl⟩
+    · cases hr
+    · cases hr
+      have := hae.prim_inv; subst this
+      rw [built_eq] at hce
+      obtain ⟨tes', hall, rule⟩ := and_meaning hstd (t' :: ts) (isList_ofList none _) hce
+      refine ⟨te :: tes', .cons hte hall, fun σ ρ v τ h => ?_⟩
+      cases hall with
+      | cons _ _ =>
+        cases h with
+        | stop ht htv =>
+          have := Means.cond_false (c := ce) (l := lc) ht htv (Means.prim (p := .bool false) (l := l) rfl)
+          rwa [ht.erased] at this
+        | next ht htv hrest => exact Means.cond_true ht htv (rule _ ρ v τ hrest)
+
+open Ruschm.Macro.Ex in
+set_option maxRecDepth 100000 in
+/-- `(and 1 #f zz)` is `#f`; the unbound `zz` is not evaluated -/
+example : ∃ e, XE [[], Interp.grammarScope] (lst [sy "and", num 1, .prim (.bool false) none, sy "zz"]) e ∧
+    Means {} 0 e (.bool false) {} := by
+  have hx : ∃ e, XE [[], Interp.grammarScope] (lst [sy "and", num 1, .prim (.bool false) none, sy "zz"]) e :=
+    ⟨_, 300, rfl⟩
+  obtain ⟨e, hx⟩ := hx
+  obtain ⟨tes, hb, rule⟩ := and_meaning stdSyn_default [num 1, .prim (.bool false) none, sy "zz"]
+    (l₁ := none) (l := none) (rest := lst [num 1, .prim (.bool false) none, sy "zz"]) rfl hx
+  cases hb with
+  | cons h₁ t =>
+    cases t with
+    | cons h₂ t₂ =>
+      cases t₂ with
+      | cons h₃ t₃ =>
+        cases t₃
+        have e₁ := h₁.prim_inv; have e₂ := h₂.prim_inv
+        subst e₁ e₂
+        exact ⟨e, hx, rule {} 0 _ _ (.next (Means.prim rfl) rfl (.stop (Means.prim rfl) rfl))⟩
+
+/-! ## or -/
+
+/-- R7RS `or` on already transformed tests, as the bundled (non-hygienic) template realises it: left to
+right; the first value that is not `#f` is the value and ends the evaluation; each test after the first
+is evaluated in a fresh child frame that binds `x` to the (false) value of the test before it, and that
+frame stays in the store; `(or)` is `#f` -/
+inductive OrMeans : Nat → Store → List Expr → Value → Store → Prop
+  | nil {ρ σ} : OrMeans ρ σ [] (.bool false) σ.erase
+  | one {ρ σ t v τ} (h : Means σ ρ t v τ) : OrMeans ρ σ [t] v τ
+  | stop {ρ σ t t' ts tv σ₁} (h : Means σ ρ t tv σ₁) (htv : tv.truthy = true) :
+      OrMeans ρ σ (t :: t' :: ts) tv (σ₁.pushFrame ρ [("x", tv)])
+  | next {ρ σ t t' ts tv σ₁ v τ} (h : Means σ ρ t tv σ₁) (htv : tv.truthy = false)
+      (ht : OrMeans σ₁.frames.size (σ₁.pushFrame ρ [("x", tv)]) (t' :: ts) v τ) : OrMeans ρ σ (t :: t' :: ts) v τ
+
+/-- `(or test₁ … testₙ)`: the tests are evaluated left to right until one yields a value that is not
+`#f`, which is then the value (the later tests are NOT evaluated); if none does the value is the value of
+the last test; `(or)` is `#f`. -/
+theorem or_meaning {env} (hstd : StdSyn env) : ∀ (tests : List Datum) {l₁ rest l e}, IsList rest tests →
+    XE env (.pair (.sym "or" l₁) rest l) e →
+    ∃ tes, All2 (XE env) tests tes ∧ ∀ σ ρ v τ, OrMeans ρ σ tes v τ → Means σ ρ e v τ
+  | [], l₁, rest, l, e, hu, hx => by
+    have h₁ := hx.expand_inv hstd.std (by decide) (fun fuel hf => at_loc (or_empty_shape (isList_withLoc l hu) hf))
+    have := h₁.prim_inv; subst this
+    exact ⟨[], .nil, fun σ ρ v τ h => by cases h; exact Means.prim rfl⟩
+  | [t], l₁, rest, l, e, hu, hx => by
+    have h₁ := hx.expand_inv hstd.std (by decide) (fun fuel hf => at_loc (or_one_shape (isList_withLoc l hu) hf))
+    exact ⟨[e], .cons h₁ .nil, fun σ ρ v τ h => by cases h; assumption⟩
+  | t :: t' :: ts, l₁, rest, l, e, hu, hx => by
+    have h₁ := hx.expand_inv hstd.std (by decide) (fun fuel hf =>
+      at_loc (or_more_shape (test := t) (tests := t' :: ts) (isList_withLoc l hu) (by simp) hf))
+    obtain ⟨te, be, la, lb, hte, hbe, rfl⟩ := XE.let1_inv hstd.std h₁
+    obtain ⟨xe, ce, lc, hxe, hce, hcase⟩ := hbe.if_inv (isList_ofList _ _) rfl
+    rcases hcase with ⟨hr, _⟩ | ⟨a, r', ae, hr, hae, rfl⟩
+    · cases hr
+    · cases hr
+      have := hxe.sym_inv; subst this
+      have := hce.sym_inv; subst this
+      rw [built_eq] at hae
+      obtain ⟨tes', hall, rule⟩ := or_meaning hstd (t' :: ts) (isList_ofList none _) hae
+      refine ⟨te :: tes', .cons hte hall, fun σ ρ v τ h => ?_⟩
+      cases hall with
+      | cons _ _ =>
+        cases h with
+        | @stop _ _ _ _ _ _ σ₁ ht htv =>
+          refine Means.let1 ht ?_
+          have hx : (σ₁.pushFrame ρ [("x", v)]).lookup σ₁.frames.size "x" = some v :=
+            Store.lookup_pushFrame_here rfl
+          have := Means.cond_true (a := some ae) (l := lc) (Means.sym (l := l) hx) htv (Means.sym (l := l)
+            (σ := (σ₁.pushFrame ρ [("x", v)]).erase) (ρ := σ₁.frames.size) (by rw [Store.erase_lookup]; exact hx))
+          rw [Store.erase_erase] at this
+          rw [show (σ₁.pushFrame ρ [("x", v)]).erase = σ₁.pushFrame ρ [("x", v)] from by
+            rw [erase_pushFrame, ht.erased]] at this
+          exact this
+        | @next _ _ _ _ _ tv₁ σ₁ _ _ ht htv hrest =>
+          refine Means.let1 ht ?_
+          have hx : (σ₁.pushFrame ρ [("x", tv₁)]).lookup σ₁.frames.size "x" = some tv₁ :=
+            Store.lookup_pushFrame_here rfl
+          exact Means.cond_false (Means.sym (l := l) hx) htv (means_erase.mpr (rule _ _ v τ hrest))
+
+/-! ## let, let* -/
+
+/-- `(let ((name₁ init₁) …) form₁ … formₙ)` (possibly without bindings): the initialisers are evaluated
+left to right IN THE OUTER FRAME; then the forms are evaluated in order in a fresh frame, child of the
+outer one, that binds the names to the values; the value is the value of the last form. -/
+theorem let_meaning {env l₁ rest l bs bds nvs body e} (hstd : StdSyn env) (hu : IsList rest (bs :: body))
+    (hbs : IsList bs bds) (hp : IsPairs bds nvs) (hne : body ≠ []) (hnd : NoDefs env body)
+    (hx : XE env (.pair (.sym "let" l₁) rest l) e) :
+    ∃ ves bes, All2 (XE env) (nvs.map (·.2)) ves ∧ All2 (XE env) body bes ∧
+      ∀ σ ρ vs σ₁ v τ, MeansList ρ σ ves vs σ₁ →
+        MeansSeq σ₁.frames.size (σ₁.pushFrame ρ (bindList [] (nvs.map fun nv => symName nv.1) vs)) bes v τ →
+        Means σ ρ e v τ := by
+  by_cases hnv : nvs = []
+  · have hb : bds = [] := hp.nil_iff.2 hnv
+    subst hb; subst hnv
+    have h₁ := hx.expand_inv hstd.std (by decide) (fun fuel hf =>
+      at_loc (let_empty_shape (isList_withLoc l hu) hbs hne hf))
+    obtain ⟨F, bes, aes, la, lb, hF, hbes, haes, rfl⟩ :=
+      h₁.lambda_call_inv (isList_ofList _ _) (isList_ofList _ _) rfl hnd
+    cases haes
+    have := toFormals_list hF (isList_ofList l [])
+    subst this
+    refine ⟨[], bes, .nil, hbes, fun σ ρ vs σ₁ v τ hl hb => ?_⟩
+    exact Means.lambda_call (names := []) hl hb rfl
+  · have h₁ := hx.expand_inv hstd.std (by decide) (fun fuel hf =>
+      at_loc (let_shape (isList_withLoc l hu) hbs hp hnv hne hf))
+    obtain ⟨F, bes, aes, la, lb, hF, hbes, haes, rfl⟩ :=
+      h₁.lambda_call_inv (isList_ofList _ _) (isList_ofList _ _) rfl hnd
+    have := toFormals_list hF (isList_ofList l (nvs.map (·.1)))
+    subst this
+    refine ⟨aes, bes, haes, hbes, fun σ ρ vs σ₁ v τ hl hb => ?_⟩
+    have hlen : (List.map symName (nvs.map (·.1))).length = aes.length := by
+      rw [← haes.length]; simp
+    have hnames : List.map symName (nvs.map (·.1)) = nvs.map fun nv => symName nv.1 := by simp
+    rw [hnames] at hlen ⊢
+    exact Means.lambda_call hl hb hlen
+
+/-- a binding `(name init)` and what it is transformed into -/
+def XB (env : SynEnv) (nv : Datum × Datum) (b : String × Expr) : Prop := b.1 = symName nv.1 ∧ XE env nv.2 b.2
+
+/-- R7RS `let*`: the bindings one after the other, each initialiser evaluated in the scope of the earlier
+bindings (a fresh child frame per binding), then the body in the innermost frame -/
+inductive LetStarMeans : Nat → Store → List (String × Expr) → List Expr → Value → Store → Prop
+  | nil {ρ σ bes v τ} (h : MeansSeq σ.frames.size (σ.pushFrame ρ []) bes v τ) : LetStarMeans ρ σ [] bes v τ
+  | one {ρ σ nm ve bes x σ₁ v τ} (h : Means σ ρ ve x σ₁)
+      (hb : MeansSeq σ₁.frames.size (σ₁.pushFrame ρ [(nm, x)]) bes v τ) : LetStarMeans ρ σ [(nm, ve)] bes v τ
+  | cons {ρ σ nm ve b₂ bs bes x σ₁ v τ} (h : Means σ ρ ve x σ₁)
+      (ht : LetStarMeans σ₁.frames.size (σ₁.pushFrame ρ [(nm, x)]) (b₂ :: bs) bes v τ) :
+      LetStarMeans ρ σ ((nm, ve) :: b₂ :: bs) bes v τ
+
+/-- `(let* ((name₁ init₁) …) form₁ … formₙ)`: each initialiser is evaluated in the scope of the bindings
+before it; the forms are evaluated in order in the scope of all of them; the value is the value of the
+last form. -/
+theorem letstar_meaning {env} (hstd : StdSyn env) {body : List Datum} (hne : body ≠ []) (hnd : NoDefs env body) :
+    ∀ (nvs : List (Datum × Datum)) {l₁ rest l bs bds e}, IsList rest (bs :: body) → IsList bs bds →
+    IsPairs bds nvs → XE env (.pair (.sym "let*" l₁) rest l) e →
+    ∃ bnds bes, All2 (XB env) nvs bnds ∧ All2 (XE env) body bes ∧
+      ∀ σ ρ v τ, LetStarMeans ρ σ bnds bes v τ → Means σ ρ e v τ
+  | [], l₁, rest, l, bs, bds, e, hu, hbs, hp, hx => by
+    cases hp
+    have h₁ := hx.expand_inv hstd.std (by decide) (fun fuel hf =>
+      at_loc (letstar_empty_shape (isList_withLoc l hu) hbs hne hf))
+    rw [built_eq] at h₁
+    obtain ⟨ves, bes, hves, hbes, rule⟩ := let_meaning (nvs := []) hstd (isList_ofList none _) (isList_ofList l [])
+      .nil hne hnd h₁
+    cases hves
+    refine ⟨[], bes, .nil, hbes, fun σ ρ v τ h => ?_⟩
+    cases h with
+    | nil hb => exact rule σ ρ [] _ v τ .nil hb.to_erase
+  | [nv], l₁, rest, l, bs, bds, e, hu, hbs, hp, hx => by
+    cases hp with
+    | cons hb hps =>
+      cases hps
+      have h₁ := hx.expand_inv hstd.std (by decide) (fun fuel hf =>
+        at_loc (letstar_one_shape (isList_withLoc l hu) hbs hb hne hf))
+      rw [built_eq] at h₁
+      obtain ⟨ves, bes, hves, hbes, rule⟩ := let_meaning (nvs := [nv]) hstd (isList_ofList none _)
+        (isList_ofList l [_]) (.cons (xy := nv) (isList_ofList _ _) .nil) hne hnd h₁
+      cases hves with
+      | cons hve t =>
+        cases t
+        rename_i ve
+        refine ⟨[(symName nv.1, ve)], bes, .cons ⟨rfl, hve⟩ .nil, hbes, fun σ ρ v τ h => ?_⟩
+        cases h with
+        | one h hb => exact rule σ ρ [_] _ v τ (MeansList.one h) hb
+  | nv :: nv₂ :: more, l₁, rest, l, bs, bds, e, hu, hbs, hp, hx => by
+    cases hp with
+    | cons hb hps =>
+      have h₁ := hx.expand_inv hstd.std (by decide) (fun fuel hf =>
+        at_loc (letstar_more_shape (isList_withLoc l hu) hbs hb hps (by simp) hne hf))
+      obtain ⟨ve, be, la, lb, hve, hbe, rfl⟩ := XE.let1_inv hstd.std h₁
+      rw [built_eq] at hbe
+      obtain ⟨bnds, bes, hbnds, hbes, rule⟩ := letstar_meaning hstd hne hnd (nv₂ :: more)
+        (isList_ofList none _) (isList_ofList _ _) (isPairs_built _ _) hbe
+      refine ⟨(symName nv.1, ve) :: bnds, bes, .cons ⟨rfl, hve⟩ hbnds, hbes, fun σ ρ v τ h => ?_⟩
+      cases hbnds with
+      | cons _ _ =>
+        cases h with
+        | cons h ht => exact Means.let1 h (rule _ _ v τ ht)
+
+/-! ## cond
+
+One theorem per clause kind, for a clause that is the last one (`…_last`) and for a clause followed by
+further clauses (`…_more`); in the latter the remaining clauses are the form `(cond clause₂ …)`, whose
+expression `er` is characterised by the same theorems. Side conditions as in `C05Shapes.lean` (the rule
+order of `grammar.sld`). `Ordinary env r`: the receiver datum, in operator position, makes a procedure
+call (it is not the keyword of a core form or of a macro). -/
+
+/-- the call `(receiver temp)` the `=>` templates build -/
+theorem receiver_call {env loc r ce} (hce : XE env (L loc [r, S loc "temp"]) ce) (hr : Ordinary env r) :
+    ∃ re, XE env r re ∧ ∀ σ ρ fv σ₂ x v τ, Means σ ρ re fv σ₂ → σ₂.lookup ρ "temp" = some x →
+      MeansApply σ₂ fv [x] v τ → Means σ ρ ce v τ := by
+  obtain ⟨re, aes, lc, hre, haes, rfl⟩ := hce.call_inv (isList_ofList _ _) hr
+  cases haes with
+  | cons ht t =>
+    cases t
+    have := ht.sym_inv; subst this
+    refine ⟨re, hre, fun σ ρ fv σ₂ x v τ hf hl happ => ?_⟩
+    have hs := Means.sym (l := loc) hl
+    rw [hf.erased] at hs
+    exact Means.call hf (MeansList.one hs) happ
+
+/-- `(cond (else form₁ … formₙ))`: the forms in order (fresh empty child frame), value of the last -/
+theorem cond_else_meaning {env l₁ rest l c el body e} (hstd : StdSyn env) (hu : IsList rest [c])
+    (hc : IsList c (el :: body)) (he : isSym "else" el = true) (hne : body ≠ []) (hnd : NoDefs env body)
+    (hx : XE env (.pair (.sym "cond" l₁) rest l) e) :
+    ∃ bes, All2 (XE env) body bes ∧
+      ∀ σ ρ v τ, MeansSeq σ.frames.size (σ.pushFrame ρ []) bes v τ → Means σ ρ e v τ := by
+  have h₁ := hx.expand_inv hstd.std (by decide) (fun fuel hf =>
+    at_loc (cond_else_shape (isList_withLoc l hu) hc he hne hf))
+  rw [built_eq] at h₁
+  exact begin_meaning hstd (isList_ofList none body) hne hnd h₁
+
+/-- `(cond (test => receiver))`, the last clause: the test is evaluated once; its value is bound to
+`temp` in a fresh child frame; if it is not `#f` the receiver EXPRESSION is evaluated (in that frame) and
+the procedure it yields is applied to the value (of `temp`); if it is `#f` the receiver expression is NOT
+evaluated and the model's value is `Void`. -/
+theorem cond_arrow_last_meaning {env l₁ rest l c test a r e} (hstd : StdSyn env) (hu : IsList rest [c])
+    (hc : IsList c [test, a, r]) (ha : isSym "=>" a = true) (hte : isSym "else" test = false)
+    (hr : Ordinary env r) (hx : XE env (.pair (.sym "cond" l₁) rest l) e) :
+    ∃ te re, XE env test te ∧ XE env r re ∧
+      ∀ σ ρ tv σ₁, Means σ ρ te tv σ₁ →
+        (tv.truthy = true → ∀ fv σ₂ x v τ, Means (σ₁.pushFrame ρ [("temp", tv)]) σ₁.frames.size re fv σ₂ →
+          σ₂.lookup σ₁.frames.size "temp" = some x → MeansApply σ₂ fv [x] v τ → Means σ ρ e v τ) ∧
+        (tv.truthy = false → Means σ ρ e .void (σ₁.pushFrame ρ [("temp", tv)])) := by
+  have h₁ := hx.expand_inv hstd.std (by decide) (fun fuel hf =>
+    at_loc (cond_arrow_shape (isList_withLoc l hu) hc ha hte hf))
+  obtain ⟨te, be, la, lb, hte', hbe, rfl⟩ := XE.let1_inv hstd.std h₁
+  obtain ⟨xe, ce, lc, hxe, hce, hcase⟩ := hbe.if_inv (isList_ofList _ _) rfl
+  rcases hcase with ⟨_, rfl⟩ | ⟨_, _, _, hr', _⟩
+  · have := hxe.sym_inv; subst this
+    obtain ⟨re, hre, rule⟩ := receiver_call hce hr
+    refine ⟨te, re, hte', hre, fun σ ρ tv σ₁ ht => ?_⟩
+    have hl : (σ₁.pushFrame ρ [("temp", tv)]).lookup σ₁.frames.size "temp" = some tv :=
+      Store.lookup_pushFrame_here rfl
+    have her : (σ₁.pushFrame ρ [("temp", tv)]).erase = σ₁.pushFrame ρ [("temp", tv)] := by
+      rw [erase_pushFrame, ht.erased]
+    refine ⟨fun htv fv σ₂ x v τ hf hx' happ => Means.let1 ht ?_, fun htv => Means.let1 ht ?_⟩
+    · exact Means.cond_true (Means.sym hl) htv (means_erase.mpr (rule _ _ fv σ₂ x v τ hf hx' happ))
+    · have := Means.cond_void (c := ce) (l := lc) (Means.sym (l := l) hl) htv
+      rwa [her] at this
+  · cases hr'
+
+/-- `(cond (test => receiver) clause₂ …)`: as above when the test's value is not `#f`; when it is `#f`
+the receiver expression is NOT evaluated and the value is that of `(cond clause₂ …)`, evaluated in the
+frame that binds `temp`. -/
+theorem cond_arrow_more_meaning {env l₁ rest l c test a r clauses e} (hstd : StdSyn env)
+    (hu : IsList rest (c :: clauses)) (hc : IsList c [test, a, r]) (ha : isSym "=>" a = true)
+    (hcl : clauses ≠ []) (hr : Ordinary env r) (hx : XE env (.pair (.sym "cond" l₁) rest l) e) :
+    ∃ te re er, XE env test te ∧ XE env r re ∧ XE env (.pair (.sym "cond" l) (Datum.ofList none clauses) l) er ∧
+      ∀ σ ρ tv σ₁, Means σ ρ te tv σ₁ →
+        (tv.truthy = true → ∀ fv σ₂ x v τ, Means (σ₁.pushFrame ρ [("temp", tv)]) σ₁.frames.size re fv σ₂ →
+          σ₂.lookup σ₁.frames.size "temp" = some x → MeansApply σ₂ fv [x] v τ → Means σ ρ e v τ) ∧
+        (tv.truthy = false → ∀ v τ, Means (σ₁.pushFrame ρ [("temp", tv)]) σ₁.frames.size er v τ →
+          Means σ ρ e v τ) := by
+  have h₁ := hx.expand_inv hstd.std (by decide) (fun fuel hf =>
+    at_loc (cond_arrow_more_shape (isList_withLoc l hu) hc ha hcl hf))
+  obtain ⟨te, be, la, lb, hte', hbe, rfl⟩ := XE.let1_inv hstd.std h₁
+  obtain ⟨xe, ce, lc, hxe, hce, hcase⟩ := hbe.if_inv (isList_ofList _ _) rfl
+  rcases hcase with ⟨hr', _⟩ | ⟨_, _, er, hr', her', rfl⟩
+  · cases hr'
+  · cases hr'
+    have := hxe.sym_inv; subst this
+    obtain ⟨re, hre, rule⟩ := receiver_call hce hr
+    rw [built_eq] at her'
+    refine ⟨te, re, er, hte', hre, her', fun σ ρ tv σ₁ ht => ?_⟩
+    have hl : (σ₁.pushFrame ρ [("temp", tv)]).lookup σ₁.frames.size "temp" = some tv :=
+      Store.lookup_pushFrame_here rfl
+    refine ⟨fun htv fv σ₂ x v τ hf hx' happ => Means.let1 ht ?_, fun htv v τ hrest => Means.let1 ht ?_⟩
+    · exact Means.cond_true (Means.sym hl) htv (means_erase.mpr (rule _ _ fv σ₂ x v τ hf hx' happ))
+    · exact Means.cond_false (Means.sym (l := l) hl) htv (means_erase.mpr hrest)
+
+/-- `(cond (test))`, the last clause: the value of the test -/
+theorem cond_test_last_meaning {env l₁ rest l c test e} (hstd : StdSyn env) (hu : IsList rest [c])
+    (hc : IsList c [test]) (hx : XE env (.pair (.sym "cond" l₁) rest l) e) : XE env test e :=
+  hx.expand_inv hstd.std (by decide) (fun fuel hf => at_loc (cond_test_shape (isList_withLoc l hu) hc hf))
+
+/-- `(cond (test) clause₂ …)`: the test is evaluated once and bound to `temp` in a fresh child frame; if
+its value is not `#f` it is the value; otherwise the value is that of `(cond clause₂ …)`, evaluated in
+that frame. -/
+theorem cond_test_more_meaning {env l₁ rest l c test clauses e} (hstd : StdSyn env)
+    (hu : IsList rest (c :: clauses)) (hc : IsList c [test]) (hcl : clauses ≠ [])
+    (hx : XE env (.pair (.sym "cond" l₁) rest l) e) :
+    ∃ te er, XE env test te ∧ XE env (.pair (.sym "cond" l) (Datum.ofList none clauses) l) er ∧
+      ∀ σ ρ tv σ₁, Means σ ρ te tv σ₁ →
+        (tv.truthy = true → Means σ ρ e tv (σ₁.pushFrame ρ [("temp", tv)])) ∧
+        (tv.truthy = false → ∀ v τ, Means (σ₁.pushFrame ρ [("temp", tv)]) σ₁.frames.size er v τ →
+          Means σ ρ e v τ) := by
+  have h₁ := hx.expand_inv hstd.std (by decide) (fun fuel hf =>
+    at_loc (cond_test_more_shape (isList_withLoc l hu) hc hcl hf))
+  obtain ⟨te, be, la, lb, hte', hbe, rfl⟩ := XE.let1_inv hstd.std h₁
+  obtain ⟨xe, ce, lc, hxe, hce, hcase⟩ := hbe.if_inv (isList_ofList _ _) rfl
+  rcases hcase with ⟨hr', _⟩ | ⟨_, _, er, hr', her', rfl⟩
+  · cases hr'
+  · cases hr'
+    have := hxe.sym_inv; subst this
+    have := hce.sym_inv; subst this
+    rw [built_eq] at her'
+    refine ⟨te, er, hte', her', fun σ ρ tv σ₁ ht => ?_⟩
+    have hl : (σ₁.pushFrame ρ [("temp", tv)]).lookup σ₁.frames.size "temp" = some tv :=
+      Store.lookup_pushFrame_here rfl
+    have her : (σ₁.pushFrame ρ [("temp", tv)]).erase = σ₁.pushFrame ρ [("temp", tv)] := by
+      rw [erase_pushFrame, ht.erased]
+    refine ⟨fun htv => Means.let1 ht ?_, fun htv v τ hrest => Means.let1 ht ?_⟩
+    · have := Means.cond_true (a := some er) (l := lc) (Means.sym (l := l) hl) htv (Means.sym (l := l)
+        (σ := (σ₁.pushFrame ρ [("temp", tv)]).erase) (ρ := σ₁.frames.size) (by rw [Store.erase_lookup]; exact hl))
+      rwa [Store.erase_erase, her] at this
+    · exact Means.cond_false (Means.sym (l := l) hl) htv (means_erase.mpr hrest)
+
+/-- `(cond (test form₁ … formₙ))`, the last clause: the test once; if its value is not `#f` the forms in
+order (fresh empty child frame), value of the last; otherwise NO form is evaluated and the model's value
+is `Void`. -/
+theorem cond_clause_last_meaning {env l₁ rest l c test body e} (hstd : StdSyn env) (hu : IsList rest [c])
+    (hc : IsList c (test :: body)) (hne : body ≠ []) (hte : isSym "else" test = false)
+    (hna : ∀ a r, body = [a, r] → isSym "=>" a = false) (hnd : NoDefs env body)
+    (hx : XE env (.pair (.sym "cond" l₁) rest l) e) :
+    ∃ te bes, XE env test te ∧ All2 (XE env) body bes ∧
+      ∀ σ ρ tv σ₁, Means σ ρ te tv σ₁ →
+        (tv.truthy = true → ∀ v τ, MeansSeq σ₁.frames.size (σ₁.pushFrame ρ []) bes v τ → Means σ ρ e v τ) ∧
+        (tv.truthy = false → Means σ ρ e .void σ₁) := by
+  have h₁ := hx.expand_inv hstd.std (by decide) (fun fuel hf =>
+    at_loc (cond_normal_shape (isList_withLoc l hu) hc hne hte hna hf))
+  obtain ⟨te, ce, lc, hte', hce, hcase⟩ := h₁.if_inv (isList_ofList _ _) rfl
+  rcases hcase with ⟨_, rfl⟩ | ⟨_, _, _, hr', _⟩
+  · rw [built_eq] at hce
+    obtain ⟨bes, hbes, rule⟩ := begin_meaning hstd (isList_ofList none body) hne hnd hce
+    exact ⟨te, bes, hte', hbes, fun σ ρ tv σ₁ ht =>
+      ⟨fun htv v τ hb => Means.cond_true ht htv (rule σ₁ ρ v τ hb), fun htv => Means.cond_void ht htv⟩⟩
+  · cases hr'
+
+/-- `(cond (test form₁ … formₙ) clause₂ …)`: the test once; if its value is not `#f` the forms in order,
+value of the last; otherwise NO form is evaluated and the value is that of `(cond clause₂ …)`, evaluated
+in the same frame from the store the test left. -/
+theorem cond_clause_more_meaning {env l₁ rest l c test body clauses e} (hstd : StdSyn env)
+    (hu : IsList rest (c :: clauses)) (hc : IsList c (test :: body)) (hne : body ≠ []) (hcl : clauses ≠ [])
+    (hna : ∀ a r, body = [a, r] → isSym "=>" a = false) (hnd : NoDefs env body)
+    (hx : XE env (.pair (.sym "cond" l₁) rest l) e) :
+    ∃ te bes er, XE env test te ∧ All2 (XE env) body bes ∧
+      XE env (.pair (.sym "cond" l) (Datum.ofList none clauses) l) er ∧
+      ∀ σ ρ tv σ₁, Means σ ρ te tv σ₁ →
+        (tv.truthy = true → ∀ v τ, MeansSeq σ₁.frames.size (σ₁.pushFrame ρ []) bes v τ → Means σ ρ e v τ) ∧
+        (tv.truthy = false → ∀ v τ, Means σ₁ ρ er v τ → Means σ ρ e v τ) := by
+  have h₁ := hx.expand_inv hstd.std (by decide) (fun fuel hf =>
+    at_loc (cond_normal_more_shape (isList_withLoc l hu) hc hne hcl hna hf))
+  obtain ⟨te, ce, lc, hte', hce, hcase⟩ := h₁.if_inv (isList_ofList _ _) rfl
+  rcases hcase with ⟨hr', _⟩ | ⟨_, _, er, hr', her', rfl⟩
+  · cases hr'
+  · cases hr'
+    rw [built_eq] at hce her'
+    obtain ⟨bes, hbes, rule⟩ := begin_meaning hstd (isList_ofList none body) hne hnd hce
+    exact ⟨te, bes, er, hte', hbes, her', fun σ ρ tv σ₁ ht =>
+      ⟨fun htv v τ hb => Means.cond_true ht htv (rule σ₁ ρ v τ hb),
+       fun htv v τ hrest => Means.cond_false ht htv hrest⟩⟩
 
 end Ruschm.C05Meaning
